@@ -134,6 +134,20 @@ def explore_history(ck, hi, hist, cfg, tier, rng, trace, counters):
         st = cl.statuses(kentries, nops)
         out1 = cl.recover(cdir, cfg)
         judge("kill", n - 1, st, out1)
+        # the recovered engine must accept further writes and the next start-up must preserve them
+        if out1["outcome"] == "ok" and rng.random() < (0.25 if tier == "quick" else 0.6):
+            fsteps = [{"t": "insert", "id": 1 + (n % 2), "v": 1 + (n % 2), "m": {"k1": 2, "k2": 1}, "merge": False, "ids": []},
+                      {"t": "umeta", "id": 2 - (n % 2), "v": 0, "m": {"k1": 1, "k2": 2}, "merge": True, "ids": []},
+                      {"t": "delete", "id": 1 + ((n // 2) % 2), "v": 0, "m": {"k1": 0, "k2": 0}, "merge": False, "ids": []}]
+            fp = os.path.join(sd, "follow.json")
+            json.dump({"steps": fsteps}, open(fp, "w"))
+            rc2, fout = cl.run_history(fp, cfg, cdir, resume=True)
+            if rc2 == 0 and fout:
+                fst = [3 if r["res"] == "err" else 2 for r in fout["results"]] + [0] * (len(fsteps) - len(fout["results"]))
+                out2 = cl.recover(cdir, cfg)
+                trace.append({"ev": "follow", "hi": hi, "model": "follow-up", "k": n - 1, "base": out1["state"], "fops": fsteps, "fst": fst,
+                              "outcome": out2["outcome"], "state": out2.get("state", []), "extra": out2.get("extra", 0), "why": out2.get("why", "")[:160]})
+                counters["follow-up"] = counters.get("follow-up", 0) + 1
         if rng.random() < (0.08 if tier == "quick" else 0.3):
             rec_candidates.append((n, st))
     # ---- crash during start-up: kill the recovery of a crash state at each of its effects, recover again
@@ -213,12 +227,12 @@ def judge_trace(ck, trace, counters, neff):
     nbad = 0
     for ln in bad:
         e, h = trace[ln - 1], hist_of[ln - 1]
-        key = classify({"steps": h["ops"]}, e, h["cfg"], h.get("live", []))
+        key = classify({"steps": h["ops"]}, e, h["cfg"], h.get("live", [])) if e["ev"] == "crash" else None
         if ck.violation({"history": {"steps": h["ops"]}, "cfg": h["cfg"], "crash": e},
                         "crash state rejected: history %d model=%s k=%s outcome=%s %s" % (e["hi"], e["model"], e["k"], e["outcome"], e.get("why", "")[:160]),
                         finding_key=key):
             nbad += 1
-    crashes = [e for e in trace if e["ev"] == "crash"]
+    crashes = [e for e in trace if e["ev"] in ("crash", "follow")]
     ck.cov["traces_validated_against_impl"] += len(crashes) - len(bad)
     for e in crashes[:2]:
         ck.sample({"history": hist_of[trace.index(e)]["ops"], "cfg": hist_of[trace.index(e)]["cfg"], "crash": e}, limit=3)
